@@ -24,8 +24,8 @@ RULE = ('Generated panels (2-6 geos quick / 2-7 thorough; 8-20 greedy-only) wher
 ASSUMPTIONS = ['series tolerance 1e-12 x number of geos (summation order); derived values 1e-7..1e-9 relative; '
                'test outcomes compared exactly unless within 1e-9 of flipping']
 EXHAUSTIVE = {'quick': False, 'thorough': False}
-MINIMA = {'quick': {'min_corr_just_above_a_design': 10, 'dst_hourly_panels': 20, 'searches_after_caller_edits': 80, 'referee_tests': 400, 'sig_level_below_half': 20, 'shared_data_searches': 40, 'designs_checked': 400, 'distinct_nontrivial': 50, 'truncated_window_cases': 30},
-          'thorough': {'min_corr_just_above_a_design': 100, 'dst_hourly_panels': 200, 'searches_after_caller_edits': 800, 'referee_tests': 6000, 'sig_level_below_half': 200, 'shared_data_searches': 400, 'designs_checked': 6000, 'distinct_nontrivial': 600, 'truncated_window_cases': 400}}
+MINIMA = {'quick': {'constant_control_designs': 10, 'min_corr_just_above_a_design': 10, 'dst_hourly_panels': 20, 'searches_after_caller_edits': 80, 'referee_tests': 400, 'sig_level_below_half': 20, 'shared_data_searches': 40, 'designs_checked': 400, 'distinct_nontrivial': 50, 'truncated_window_cases': 30},
+          'thorough': {'constant_control_designs': 100, 'min_corr_just_above_a_design': 100, 'dst_hourly_panels': 200, 'searches_after_caller_edits': 800, 'referee_tests': 6000, 'sig_level_below_half': 200, 'shared_data_searches': 400, 'designs_checked': 6000, 'distinct_nontrivial': 600, 'truncated_window_cases': 400}}
 N = {'quick': 480, 'thorough': 4000}
 N_LARGE = {'quick': 16, 'thorough': 120}
 CASE_TIMEOUT = {'quick': 300, 'thorough': 900}
@@ -66,6 +66,20 @@ def run_case(spec):
     gid = str(case['panel']['ids'][order[r.randrange(0, max(1, len(order) // 2))]])
     if gid in case['elig_rows']:
       case['elig_rows'][gid] = 'x_fixed'
+  if spec['kind'] != 'large' and spec['idx'] % 12 == 3 and len(case['panel']['ids']) >= 3:
+    # a control-only geo whose response is flat (and not zero) over the whole panel, every other geo treatment-eligible:
+    # designs whose control group is that geo alone have no regression fit
+    from mmv import gen as _gen  # pylint: disable=g-import-not-at-top
+    ids_ = [str(i) for i in case['panel']['ids']]
+    kf = r.randrange(len(ids_))
+    case['panel']['values'][kf, :] = float(max(1.0, round(abs(case['panel']['values'][kf].mean()))))
+    case['panel']['present'][kf, :] = True
+    case['panel']['dups'] = None
+    case['frame'] = _gen.panel_frame(case['panel'], r, shuffle=True)
+    case['elig_rows'] = {gid: ('cx' if i == kf else r.choice(['tx', 'ctx', 'ctx'])) for i, gid in enumerate(ids_)}
+    case['extra'] = {}
+    for k2 in ('budget_range', 'treatment_share_range', 'n_geos_max', 'volume_ratio_tolerance', 'control_geos_range', 'geo_ratio_tolerance'):
+      case['params'].pop(k2, None)
   kw = case['params']
   kw['n_designs'] = r.choice([5, 8, 50, 100000])
   D = len(case['panel']['dates'])
@@ -123,6 +137,7 @@ def run_case(spec):
   if truth.n < D:
     counters['truncated_window_cases'] += 1
   counters['referee_tests'] += sp.INFO.get('referee_tests', 0)
+  counters['constant_control_designs'] += sp.INFO.get('constant_control_designs', 0)
   desc = sl.describe(case, with_frame=False)
   return {'nontrivial': max_returned >= 2 and shuffled_index, 'fp': util.fp(desc), 'classes': [spec['kind']],
           'counters': dict(counters), 'outcome': ' '.join(outcomes), 'violations': violations[:10],
